@@ -101,6 +101,9 @@ def make_cases(ctx, n):
             {"op": "walk"}, {"op": "list", "band": 0}, {"op": "arch"},
             {"op": "diff", "band": 0, "include_unchanged": False}, {"op": "diff", "band": 0, "include_unchanged": True},
             {"op": "backup", "opts": gen.rand_opts(ctx.rng), "changes": True},
+            # the new version against the (unchanged) tree it was just made from, and one more backup of it
+            {"op": "diff", "band": 1, "include_unchanged": False}, {"op": "diff", "band": 1, "include_unchanged": True},
+            {"op": "backup", "opts": gen.rand_opts(ctx.rng), "changes": True},
         ]
         cases.append({"id": f"d{t}", "t0": t0, "t1": t1, "muts": muts, "opts": opts, "steps": steps})
     return cases
@@ -151,6 +154,22 @@ def run(ctx):
         eb = true_backup_changes(c["t0"], c["t1"])
         if bc != eb:
             ctx.oracle_fail("diff/backup-callback", f"backup change callback reports {bc[:8]} but the real file changes are {eb[:8]} (mutations {c['muts']})", small)
+            continue
+        if len(r) > 14 and all(r[k].get("result") == "ok" for k in (12, 13, 14)):
+            s2, s2u, bc2 = sigs(r[12]), sigs(r[13]), [(x[0], x[1]) for x in r[14].get("changes", [])]
+            if s2 != []:
+                ctx.oracle_fail("diff/self-nonempty", f"after the second backup, diff of the NEW version against the very tree it was made from reports "
+                                                      f"{s2[:6]} (mutations before that backup: {c['muts']})", small)
+                continue
+            if s2u != true_diff(c["t1"], c["t1"], True):
+                ctx.oracle_fail("diff/self-unchanged", f"after the second backup, diff --include-unchanged of the new version against its own tree: {s2u[:6]}", small)
+                continue
+            eb2 = true_backup_changes(c["t1"], c["t1"])
+            if bc2 != eb2:
+                ctx.oracle_fail("diff/backup-callback", f"a third backup of the unchanged tree reports {bc2[:8]}, expected {eb2[:8]} (mutations before the second: {c['muts']})", small)
+                continue
+        elif len(r) > 14:
+            ctx.oracle_fail("diff/op-failed", "diff or backup after the second backup failed: " + json.dumps([r[k].get("err") for k in (12, 13, 14)])[:300], small)
             continue
         if e0:
             ctx.nontrivial(json.dumps(c["muts"]) + json.dumps(e0))
